@@ -12,7 +12,9 @@ import (
 	"math/big"
 	"math/rand"
 	"os"
+	"runtime"
 	"sort"
+	"time"
 
 	"github.com/RoaringBitmap/roaring/v2"
 	bsi32 "github.com/RoaringBitmap/roaring/v2/BitSliceIndexing"
@@ -20,22 +22,22 @@ import (
 )
 
 type BCall struct {
-	Op   string  `json:"op"`
-	X    int     `json:"x,omitempty"`
-	Y    int     `json:"y,omitempty"`
-	Dst  int     `json:"dst,omitempty"`
-	Ys   []int   `json:"ys,omitempty"`
-	Col  int     `json:"col,omitempty"`
-	Cols *[]int  `json:"cols,omitempty"`
-	All  bool    `json:"all"`
-	Val  int     `json:"val"`
-	Vals *[]int  `json:"vals,omitempty"`
-	Cmp  string  `json:"cmp,omitempty"`
-	Lo   int     `json:"lo"`
-	Hi   int     `json:"hi"`
-	Par  int     `json:"par"`
-	Auto bool    `json:"auto"`
-	Own  bool    `json:"own,omitempty"` // found set = the index's own existence bitmap object
+	Op   string `json:"op"`
+	X    int    `json:"x,omitempty"`
+	Y    int    `json:"y,omitempty"`
+	Dst  int    `json:"dst,omitempty"`
+	Ys   []int  `json:"ys,omitempty"`
+	Col  int    `json:"col,omitempty"`
+	Cols *[]int `json:"cols,omitempty"`
+	All  bool   `json:"all"`
+	Val  int    `json:"val"`
+	Vals *[]int `json:"vals,omitempty"`
+	Cmp  string `json:"cmp,omitempty"`
+	Lo   int    `json:"lo"`
+	Hi   int    `json:"hi"`
+	Par  int    `json:"par"`
+	Auto bool   `json:"auto"`
+	Own  bool   `json:"own,omitempty"` // found set = the index's own existence bitmap object
 }
 
 type BObs struct {
@@ -54,6 +56,7 @@ type BEvent struct {
 	Obs   []BObs `json:"obs"`
 	Ret   any    `json:"ret,omitempty"`
 	Panic string `json:"panic"`
+	Left  int    `json:"left"` // goroutines the call left behind (C12: BSI fan-out / fan-in)
 }
 
 // index: the operations both implementations offer, over concrete column ids and concrete (scaled) values
@@ -359,7 +362,9 @@ func (x *ix32) planesOK() bool {
 func (x *ix32) compare(par int, op string, lo, hi *big.Int, cols []uint64, all, own bool) []uint64 {
 	return take32(x.b.CompareValue(par, bsi32.Operation(opCode[op]), lo.Int64(), hi.Int64(), fs32(x, cols, all, own)))
 }
-func (x *ix32) compareBSI(op string, o index, cols []uint64, all bool) ([]uint64, bool) { return nil, false }
+func (x *ix32) compareBSI(op string, o index, cols []uint64, all bool) ([]uint64, bool) {
+	return nil, false
+}
 func (x *ix32) batchEqual(par int, vals []*big.Int) []uint64 {
 	iv := make([]int64, len(vals))
 	for i, v := range vals {
@@ -576,7 +581,10 @@ func (e *bsiExec) current(s int) map[int]int {
 func (e *bsiExec) run(c BCall) {
 	e.i++
 	ev := BEvent{BCall: c, Tr: e.tr, I: e.i, Obs: []BObs{}}
-	func() {
+	g0 := runtime.NumGoroutine()
+	fin := make(chan struct{})
+	go func() { // own goroutine: a call that never returns is reported, not waited for
+		defer close(fin)
 		defer func() {
 			if r := recover(); r != nil {
 				ev.Panic = fmt.Sprintf("%v", r)
@@ -588,6 +596,24 @@ func (e *bsiExec) run(c BCall) {
 		}()
 		e.do(&ev)
 	}()
+	select {
+	case <-fin:
+		// goroutine census: everything the call started must be gone (the runtime gets a moment)
+		for try := 0; try < 4000 && runtime.NumGoroutine() > g0; try++ {
+			time.Sleep(50 * time.Microsecond)
+			if try > 200 {
+				time.Sleep(time.Millisecond)
+			}
+		}
+		if n := runtime.NumGoroutine() - g0; n > 0 {
+			ev.Left = n
+		}
+	case <-time.After(60 * time.Second):
+		ev = BEvent{BCall: c, Tr: e.tr, I: e.i, Obs: []BObs{}, Panic: "hang: no return within 60 s"}
+		e.emit(ev)
+		e.w.Flush()
+		os.Exit(0) // the stuck goroutines cannot be reclaimed: end this producer, what was recorded is judged
+	}
 	for s := 1; s <= 3; s++ {
 		ev.Obs = append(ev.Obs, e.observe(s))
 	}
